@@ -1443,6 +1443,15 @@ class FunctionVerifier:
         results = []
         for s0 in self.run_ghost(cd.entry, st):
             results.extend(self.exec_block(body, s0))
+        if not self.is_lemma:
+            alts = [list(self.entry_facts)]
+            c = Obligation((cd.qualname or cd.name) + "/canary/requires-satisfiable" + self.vname(), "canary", [], FALSE, cd.qualname or cd.name, 0, "", self.vname())
+            c.extra["alts"] = alts
+            self.obls.append(c)
+            rets = [s_.facts() for (s_, oc_) in results if oc_ != RAISE]
+            c2 = Obligation((cd.qualname or cd.name) + "/canary/exit-reachable" + self.vname(), "canary", [], FALSE, cd.qualname or cd.name, 0, "", self.vname())
+            c2.extra["alts"] = rets
+            self.obls.append(c2)
         for (s, oc) in results:
             if oc == RAISE:
                 if cd.raises is not None:
